@@ -195,6 +195,7 @@ type WorldCfg struct {
 	Contracts      bool
 	MaxPoints      int64
 	ExtraTrunk     int // trunk blocks mined beyond InitialChain that are not announced at boot
+	Burst          int `json:",omitempty"` // extra independent relevant txs B001.. the burst event relays back to back
 	HeaderBatch    int `json:",omitempty"` // most headers the peer puts into one headers message (0 = 2000, Bitcoin's limit)
 }
 
@@ -231,6 +232,7 @@ type World struct {
 	alias      map[string]string
 	preferred  *vrt.Thread
 	batching   bool
+	bursted    bool
 	slack      int64 // timing slack (ns) the oracles grant when a scheduling deviation delayed a thread
 	devSite    string // where the deviation of this execution was applied (thread + park site)
 	stopRequested  bool
